@@ -10,6 +10,8 @@ from .trees import *
 from .usertext import analyze, structure_of
 
 PID = "C04"
+DEVIATIONS = {"clear-escape": "the documented escape \\c of a format is emitted as \\c inside a Scheme string literal, which is no Guile escape: the program "
+                              "cannot be read (same root as C02 clear-escape)"}
 # site -> (input pieces around the user string, quoting, description)
 SITES = [
     ("matcher:-name", ["-name '", "'"]), ("matcher:-iname", ["-iname '", "'"]), ("matcher:-path", ["-path '", "'"]),
@@ -108,10 +110,26 @@ def run(ctx, rep, tier):
             if res0 != z3.sat:
                 rep.inconclusive.append("site %s never produces a program (vacuous)" % tag)
                 continue
-            res, m = B.solve(tag + ":user-text-stays-data", r.assume, bad_total)
+            # the documented escape \c is emitted as an escape Guile rejects (known finding `clear-escape`, shared with C02): decided
+            # separately, so that it can neither mask nor be masked by anything else
+            excl = False
+            if site.startswith("format") and meant_char is None:
+                for i_ in range(len(us) - 1):
+                    excl = b_or(excl, b_and(us[i_] == 92, us[i_ + 1] == 99))
+            res, m = B.solve(tag + ":user-text-stays-data", r.assume, b_and(bad_total, b_not(excl)))
             if res == z3.sat:
                 text = model_string(m, spec)
                 confirm(B, rep, known, site, text, us, m, spec)
+            if excl is not False:
+                resk, mk = B.solve(tag + ":known:clear-escape", r.assume, b_and(bad_total, excl))
+                if resk == z3.sat:
+                    text = model_string(mk, spec)
+                    d = B.ctx.run_native([text], "debug")[0]
+                    s1 = structure_of(d.get("scheme", ""))
+                    if s1 and s1[0] == "unreadable" and "\\c" in str(s1[1]):
+                        rep.violation("clear-escape", DEVIATIONS["clear-escape"] + "; witness %r" % text, dict(input=text))
+                    else:
+                        rep.inconclusive.append("clear-escape witness %r does not reproduce natively" % text)
             # its own query, so that a known missing-escaping finding at the same site cannot mask it
             res3, m3 = B.solve(tag + ":user-text-reaches-a-literal", r.assume, lost_total)
             if res3 == z3.sat:
